@@ -82,6 +82,16 @@ pub struct Scn {
     /// units made of incompressible data (LZMA2: stored as uncompressed chunks, control 0x01 / 0x02)
     #[serde(default)]
     pub unc: Vec<u64>,
+    /// readers: after the first error keep calling read() this many more times (each must fail again)
+    #[serde(default)]
+    pub calls_after_err: u32,
+    /// lzip reader: corrupt the trailer of member k: [k, field, mode]; field 0 = member_size, 1 = data_size,
+    /// 2 = first magic byte of the member; mode 0 = zero, 1 = +1, 2 = -1, 3 = huge
+    #[serde(default)]
+    pub lzip_damage: Option<(usize, u8, u8)>,
+    /// readers: number of operations the source may be asked for before it starts failing (0 = unlimited)
+    #[serde(default)]
+    pub op_budget: u64,
 }
 
 // ------------------------------------------------------------------ policies
@@ -253,6 +263,7 @@ pub fn build_lzma2_stream(s: &Scn) -> (Vec<u8>, Vec<Vec<u8>>) {
     let mut w: Option<LZMA2Writer<Vec<u8>>> = None;
     let mut truncated = false;
     let mut first_of_unit = 0usize;
+    let mut p_marks = 0usize;
     let opts = |first: bool| {
         let mut o = lzma2_opts();
         if first && s.preset {
@@ -300,6 +311,23 @@ pub fn build_lzma2_stream(s: &Scn) -> (Vec<u8>, Vec<Vec<u8>>) {
                 ww.flush().unwrap();
                 units.last_mut().unwrap().extend(d);
             }
+            "U" | "P" => {
+                // dependent uncompressed chunk (control 0x02); "P" adds an LZMA chunk after it, which the
+                // writer marks "state reset" (0xA0) and which is rewritten below to "state + props reset" (0xC0)
+                assert!(w.is_some(), "U / P need a preceding chunk in the same unit");
+                let d = gen::data("random", s.unit_len, s.seed.wrapping_add(i as u64 * 131 + 7));
+                let ww = w.as_mut().unwrap();
+                ww.write_all(&d).unwrap();
+                ww.flush().unwrap();
+                units.last_mut().unwrap().extend(d);
+                if k == "P" {
+                    let d2 = chunk_data(i, units.len() - 1, first_of_unit);
+                    ww.write_all(&d2).unwrap();
+                    ww.flush().unwrap();
+                    units.last_mut().unwrap().extend(d2);
+                    p_marks += 1;
+                }
+            }
             "X" => {
                 if let Some(ww) = w.take() {
                     all.extend(ww.into_inner());
@@ -314,6 +342,41 @@ pub fn build_lzma2_stream(s: &Scn) -> (Vec<u8>, Vec<Vec<u8>>) {
     }
     if let Some(ww) = w.take() {
         all.extend(ww.into_inner());
+    }
+    if p_marks > 0 {
+        // rewrite every 0xA0..0xBF chunk (state reset) into 0xC0..0xDF (state + props reset, same props)
+        let props = lzma2_opts().lzma_options.get_props();
+        let mut out = Vec::with_capacity(all.len() + 8);
+        let mut i = 0;
+        let mut shift_at: Vec<usize> = Vec::new();
+        while i < all.len() {
+            let c = all[i];
+            if c >= 0x80 {
+                let cs = ((all[i + 3] as usize) << 8) + all[i + 4] as usize + 1;
+                let hdr = if c >= 0xC0 { 6 } else { 5 };
+                if (0xA0..0xC0).contains(&c) {
+                    out.push(c + 0x20);
+                    out.extend_from_slice(&all[i + 1..i + 5]);
+                    out.push(props);
+                    out.extend_from_slice(&all[i + 5..i + 5 + cs]);
+                    shift_at.push(i);
+                } else {
+                    out.extend_from_slice(&all[i..i + hdr + cs]);
+                }
+                i += hdr + cs;
+            } else if c == 1 || c == 2 {
+                let us = ((all[i + 1] as usize) << 8) + all[i + 2] as usize + 1;
+                out.extend_from_slice(&all[i..i + 3 + us]);
+                i += 3 + us;
+            } else {
+                out.extend_from_slice(&all[i..]);
+                break;
+            }
+        }
+        for st in unit_starts.iter_mut() {
+            *st += shift_at.iter().filter(|&&p| p < *st).count();
+        }
+        all = out;
     }
     if s.terminated && !truncated {
         all.push(0);
@@ -349,10 +412,90 @@ pub fn build_lzip_stream(s: &Scn) -> (Vec<u8>, Vec<Vec<u8>>) {
             let n = m.len();
             m[n - 20] ^= 0x55; // CRC32 of the member: deterministic failure at the member trailer
         }
+        if let Some((k, field, mode)) = s.lzip_damage {
+            if k == i {
+                let n = m.len();
+                let apply = |v: u64| -> u64 {
+                    match mode {
+                        0 => 0,
+                        1 => v + 1,
+                        2 => v.wrapping_sub(1),
+                        _ => u64::MAX / 2,
+                    }
+                };
+                match field {
+                    0 => {
+                        let v = u64::from_le_bytes(m[n - 8..].try_into().unwrap());
+                        m[n - 8..].copy_from_slice(&apply(v).to_le_bytes());
+                    }
+                    1 => {
+                        let v = u64::from_le_bytes(m[n - 16..n - 8].try_into().unwrap());
+                        m[n - 16..n - 8].copy_from_slice(&apply(v).to_le_bytes());
+                    }
+                    _ => m[0] ^= 0x20,
+                }
+            }
+        }
         all.extend(m);
         units.push(d);
     }
     (all, units)
+}
+
+/// Source with an operation budget: counts read / seek calls, records the seek targets (the backward member
+/// scan of LZIPReaderMT is observable through them) and fails every call once the budget is used up, so that
+/// a loop that never ends is detected by count, not by wall clock.
+pub struct BudgetSource {
+    inner: std::io::Cursor<Vec<u8>>,
+    pub st: Arc<Mutex<BudgetState>>,
+}
+#[derive(Default, Debug)]
+pub struct BudgetState {
+    pub ops: u64,
+    pub budget: u64,
+    pub blown: bool,
+    pub seeks: Vec<(i64, u64)>, // (kind: 0 = Start, 1 = End, 2 = Current; resulting position)
+    pub reads: Vec<(u64, usize)>, // (position before, bytes requested) for the first few hundred calls
+}
+impl BudgetSource {
+    fn tick(&mut self) -> std::io::Result<()> {
+        let mut st = self.st.lock().unwrap();
+        st.ops += 1;
+        if st.budget > 0 && st.ops > st.budget {
+            st.blown = true;
+            return Err(std::io::Error::other("verif: source operation budget exhausted"));
+        }
+        Ok(())
+    }
+}
+impl Read for BudgetSource {
+    fn read(&mut self, b: &mut [u8]) -> std::io::Result<usize> {
+        self.tick()?;
+        let p = self.inner.position();
+        {
+            let mut st = self.st.lock().unwrap();
+            if st.reads.len() < 400 {
+                st.reads.push((p, b.len()));
+            }
+        }
+        self.inner.read(b)
+    }
+}
+impl std::io::Seek for BudgetSource {
+    fn seek(&mut self, p: std::io::SeekFrom) -> std::io::Result<u64> {
+        self.tick()?;
+        let r = self.inner.seek(p)?;
+        let k = match p {
+            std::io::SeekFrom::Start(_) => 0,
+            std::io::SeekFrom::End(_) => 1,
+            std::io::SeekFrom::Current(_) => 2,
+        };
+        let mut st = self.st.lock().unwrap();
+        if st.seeks.len() < 400 {
+            st.seeks.push((k, r));
+        }
+        Ok(r)
+    }
 }
 
 // ------------------------------------------------------------------ running
@@ -368,6 +511,12 @@ struct Obs {
     call_results: Vec<String>,
     st_ok: bool,
     st_out: Vec<u8>,
+    post_err: Vec<String>,
+    src_ops: u64,
+    budget_blown: bool,
+    seeks: Vec<(i64, u64)>,
+    seeks_at_new: usize,
+    file_len: u64,
 }
 
 struct FaultSink {
@@ -434,6 +583,7 @@ pub fn run_scenario(s: &Scn) -> Value {
             let workers = s.workers;
             let drop_after = s.drop_after;
             let preset = s.preset;
+            let calls_after_err = s.calls_after_err;
             // single-threaded reference result for the same stream (the property is MT == ST)
             {
                 let mut st_out = Vec::new();
@@ -452,6 +602,9 @@ pub fn run_scenario(s: &Scn) -> Value {
                 o.st_out = st_out;
             }
             let buf_len = s.unit_len * (s.chunks.len() + 1) + 64;
+            let bst = Arc::new(Mutex::new(BudgetState { budget: s.op_budget, ..Default::default() }));
+            let bst2 = bst.clone();
+            obs.lock().unwrap().file_len = stream.len() as u64;
             let r = verif_rt::run(policy, s.max_steps, move || {
                 let mut buf = vec![0u8; buf_len];
                 let mut out = Vec::new();
@@ -459,6 +612,7 @@ pub fn run_scenario(s: &Scn) -> Value {
                 let mut outcome = "dropped".to_string();
                 let (mut ek, mut em) = (String::new(), String::new());
                 let mut count = -1i64;
+                let mut post_err: Vec<String> = Vec::new();
                 macro_rules! drive {
                     ($r:expr, $cnt:expr) => {{
                         loop {
@@ -480,6 +634,16 @@ pub fn run_scenario(s: &Scn) -> Value {
                                     outcome = "err".into();
                                     ek = format!("{:?}", e.kind());
                                     em = e.to_string();
+                                    // a failed stream must stay failed: further calls may not report success
+                                    for _ in 0..calls_after_err {
+                                        match $r.read(&mut buf) {
+                                            Ok(n) => {
+                                                post_err.push(format!("ok:{n}"));
+                                                out.extend_from_slice(&buf[..n]);
+                                            }
+                                            Err(_) => post_err.push("err".into()),
+                                        }
+                                    }
                                     break;
                                 }
                             }
@@ -488,7 +652,11 @@ pub fn run_scenario(s: &Scn) -> Value {
                     }};
                 }
                 if lz {
-                    match LZIPReaderMT::new(std::io::Cursor::new(stream), workers) {
+                    let bst3 = bst2.clone();
+                    let src = BudgetSource { inner: std::io::Cursor::new(stream), st: bst2 };
+                    let made = LZIPReaderMT::new(src, workers);
+                    o2.lock().unwrap().seeks_at_new = bst3.lock().unwrap().seeks.len();
+                    match made {
                         Ok(mut r) => {
                             drive!(r, r.member_count() as i64);
                             drop(r);
@@ -517,7 +685,15 @@ pub fn run_scenario(s: &Scn) -> Value {
                 o.out = out;
                 o.reads_ok = reads_ok;
                 o.unit_count = count;
+                o.post_err = post_err;
             });
+            {
+                let b = bst.lock().unwrap();
+                let mut o = obs.lock().unwrap();
+                o.src_ops = b.ops;
+                o.budget_blown = b.blown;
+                o.seeks = b.seeks.clone();
+            }
             (units, r)
         }
         "lzma2_writer" | "lzip_writer" => {
@@ -635,6 +811,12 @@ fn finish_result(s: &Scn, expected: &[Vec<u8>], rp: Report, g: &GRep, o: &Obs) -
         m.insert("reads_ok".into(), json!(o.reads_ok));
         m.insert("unit_count".into(), json!(o.unit_count));
         m.insert("expected_units".into(), json!(expected.len()));
+        m.insert("post_err".into(), json!(o.post_err));
+        m.insert("src_ops".into(), json!(o.src_ops));
+        m.insert("budget_blown".into(), json!(o.budget_blown));
+        m.insert("seeks".into(), json!(o.seeks));
+        m.insert("file_len".into(), json!(o.file_len));
+        m.insert("seeks_at_new".into(), json!(o.seeks_at_new));
         m.insert("st_ok".into(), json!(o.st_ok));
         m.insert("st_is_expected".into(), json!(o.st_out == all));
         m.insert("mt_is_prefix_of_st".into(), json!(o.st_out.starts_with(&o.out)));
